@@ -62,19 +62,19 @@ func (sk *storeKey) clone(newId uint64) *storeKey {
 			}
 			payload = &newSl
 		} else if flagHasOne(sk.flags, FLAG_KEY_TYPE_HASH_TABLE) {
-			m := sk.payload.(map[string]string)
-			newMap := make(map[string]string, len(m))
-			for k, v := range m {
-				newMap[k] = v
+			m := sk.payload.(*redisDict)
+			newDict := newRedisDict()
+			for it := m.createIterator(); it.next(); {
+				newDict.store(it.key, it.value)
 			}
-			payload = newMap
+			payload = newDict
 		} else if flagHasOne(sk.flags, FLAG_KEY_TYPE_SET) {
-			m := sk.payload.(map[string]struct{})
-			newMap := make(map[string]struct{}, len(m))
-			for k := range m {
-				newMap[k] = struct{}{}
+			m := sk.payload.(*redisDict)
+			newDict := newRedisDict()
+			for it := m.createIterator(); it.next(); {
+				newDict.store(it.key, it.value)
 			}
-			payload = newMap
+			payload = newDict
 		} else {
 			panic("unexpected payload type")
 		}
